@@ -336,6 +336,24 @@ pub fn c04_native<G: AffineRepr + 'static>(case: &C04Case, seed: u64) -> Vec<(St
             out.push(("removed round: rejected".into(), !verify(&R1CSProof::verif_from_parts(pts, scs, InnerProductProof::verif_from_parts(l[1..].to_vec(), r[1..].to_vec(), a, b)))));
         }
     }
+    // altered copies whose defects are opposite must not cancel in a batch either
+    {
+        let (pts, scs, ipp) = proof.verif_parts();
+        let (l, r, a, b) = ipp.verif_parts();
+        let dd = G::ScalarField::from(seed + 9);
+        let plus = R1CSProof::verif_from_parts(pts, scs, InnerProductProof::verif_from_parts(l.to_vec(), r.to_vec(), a + dd, b));
+        let minus = R1CSProof::verif_from_parts(pts, scs, InnerProductProof::verif_from_parts(l.to_vec(), r.to_vec(), a - dd, b));
+        let mut ts: Vec<merlin::Transcript> = vec![new_verifier_transcript(shape), new_verifier_transcript(shape)];
+        let proofs = [plus, minus];
+        let mut insts = vec![];
+        let forks: Vec<_> = (0..2).map(|_| fork_for_verifier(shape, &shr)).collect();
+        for (i, vt) in ts.iter_mut().enumerate() {
+            insts.push((build_verifier(shape, &forks[i], vt), &proofs[i]));
+        }
+        let mut wr = rand_chacha::ChaChaRng::seed_from_u64(seed ^ 0xba7c);
+        let ok = batch_verify(&mut wr, insts, &pc, &bp).is_ok();
+        out.push(("two altered copies (final scalar a shifted by +d and by -d) are rejected by batch verification".into(), !ok));
+    }
     // the two blinding scalars sit on the same base with combined scalar -(e_blinding + r t_x_blinding):
     // (t_x_blinding - d, e_blinding + r d) with the honest run's r -- accepted only if r does not depend on them
     if let Some(r) = chal(b"r", 0) {
